@@ -22,100 +22,94 @@ PROPS = {
     "C01": dict(
         families=[("emit", 1500, 40000), ("stream", 800, 20000), ("sb", 300, 8000)],
         projection="contents_formatted / state_formatted bytes (Emit.contents_formatted_t, state_formatted_t) and the screen state they are computed from",
-        theorems=[],
     ),
     "C02": dict(
         families=[("emit", 2000, 60000), ("modes", 300, 4000)],
         projection="contents_diff / state_diff bytes (Emit.contents_diff_t, state_diff_t) against snapshots",
-        theorems=[],
     ),
     "C03": dict(
         families=[("acc", 1200, 30000), ("stream", 800, 30000), ("resize", 500, 15000), ("chunk", 300, 8000)],
         projection="panic-vs-panic on every operation and accessor (res monad of the model)",
-        theorems=[],
     ),
     "C04": dict(
         families=[("chunk", 2500, 80000)],
         projection="vte action stream (Vte.advance) and screen + event log under different chunkings",
-        theorems=["C04_main", "C04_reachable_pwf", "C04_pwf_step", "C04_vte_app", "C04_vte_bug_exact",
-                  "C04_write", "C04_flush", "C04_refuted"],
     ),
     "C05": dict(
         families=[("csi", 1500, 40000), ("stream", 800, 20000)],
-        projection="Screen.grid_text: full state before/after printing",
-        theorems=[], model_decides=True,
+        projection="Screen.grid_text: full state before/after printing", model_decides=True,
     ),
     "C06": dict(
         families=[("csi", 2000, 50000)],
-        projection="cursor movement handlers of Screen/Grid: full state before/after",
-        theorems=[], model_decides=True,
+        projection="cursor movement handlers of Screen/Grid: full state before/after", model_decides=True,
     ),
     "C07": dict(
         families=[("csi", 2000, 50000)],
-        projection="erase handlers (scr_ed, scr_el, scr_ech): full state before/after",
-        theorems=[], model_decides=True,
+        projection="erase handlers (scr_ed, scr_el, scr_ech): full state before/after", model_decides=True,
     ),
     "C08": dict(
         families=[("csi", 2000, 50000), ("sb", 300, 8000)],
-        projection="insert/delete/scroll handlers: full state before/after",
-        theorems=[], model_decides=True,
+        projection="insert/delete/scroll handlers: full state before/after", model_decides=True,
     ),
     "C09": dict(
         families=[("sgr", 2500, 60000)],
-        projection="Screen.sgr, Attrs.sgr_diff, attributes_formatted bytes",
-        theorems=[], model_decides=True,
+        projection="Screen.sgr, Attrs.sgr_diff, attributes_formatted bytes", model_decides=True,
     ),
     "C10": dict(
         families=[("modes", 2500, 40000)],
-        projection="mode fields of the screen, input_mode_formatted / input_mode_diff bytes",
-        theorems=[], model_decides=True,
+        projection="mode fields of the screen, input_mode_formatted / input_mode_diff bytes", model_decides=True,
     ),
     "C11": dict(
         families=[("alt", 1500, 40000)],
         projection="both grids, saved cursor and pen across DECSC/DECRC and 47/1049",
-        theorems=[],
     ),
     "C12": dict(
         families=[("sb", 2000, 50000)],
         projection="scrollback rows, offset, visible rows at every offset",
-        theorems=[],
     ),
     "C13": dict(
         families=[("stream", 1500, 40000), ("resize", 500, 15000)],
         projection="full state dump and public-accessor observation after histories",
-        theorems=[],
     ),
     "C14": dict(
         families=[("text", 2500, 60000)],
         projection="contents(), rows(start,width), contents_between() text",
-        theorems=[],
     ),
     "C15": dict(
         families=[("emit", 2000, 50000)],
         projection="rows_formatted / rows_diff / cursor_state_formatted / attributes_formatted bytes",
-        theorems=[],
     ),
     "C16": dict(
         families=[("resize", 2000, 50000)],
         projection="set_size on both grids, state after every resize and after the suffix",
-        theorems=[],
     ),
     "C17": dict(
         families=[("stream", 1500, 40000)],
         projection="scr_ris and everything after it",
-        theorems=[],
     ),
     "C18": dict(
         families=[("csi", 2000, 50000), ("chunk", 500, 10000)],
         projection="callback event log and vte action stream",
-        theorems=[],
     ),
     "C19": dict(
         families=[("emit", 2000, 50000)],
         projection="all emitters as functions of the observable state",
-        theorems=[],
     ),
 }
+
+
+import os, re as _re
+_ROOT = os.path.dirname(os.path.dirname(os.path.abspath(__file__)))
+
+def theorems_of(pid):
+    """The registry of a property's theorems is its committed pin file coq/Pins/<id>.v."""
+    path = os.path.join(_ROOT, "coq", "Pins", pid + ".v")
+    if not os.path.exists(path):
+        return []
+    return _re.findall(r"Print\s+Assumptions\s+(\w+)\s*\.", open(path).read())
+
+for _pid in PROPS:
+    PROPS[_pid]["theorems"] = theorems_of(_pid)
 
 HOOK_COMMITS = ["2fc300b"]
 NOT_APPLICABLE = []
